@@ -172,32 +172,67 @@ func driverRule(c *Ctx, rule string, tasks []string) {
 	})
 	c.check(called, rule, fnName(loop)+"/calls-task-in-loop", loop.Pos(), "f() is called inside the ticker loop", "the ticker loop never calls the task it was given")
 	shut := p.Field(gsPkg, "Gossip", "shutdownCh")
+	isShutdownArm := func(f Fact) bool {
+		op, x, y, isCmp := f.Cmp()
+		if !isCmp || op != token.EQL {
+			return false
+		}
+		ex, ok := x.(*ssa.Extract)
+		if !ok {
+			return false
+		}
+		sel, ok := ex.Tuple.(*ssa.Select)
+		if !ok || ex.Index != 0 {
+			return false
+		}
+		k, ok := constInt(y)
+		if !ok || int(k) >= len(sel.States) {
+			return false
+		}
+		_, isShut := loadedField(sel.States[k].Chan, shut)
+		return isShut
+	}
 	fs := computeFacts(loop)
 	badRet := ""
 	for _, r := range returnsOf(loop) {
 		if r.Block().Index == 1 && loop.Recover != nil && r.Block() == loop.Recover {
 			continue
 		}
-		ok := anyFact(fs.At(r.Block()), func(f Fact) bool {
-			op, x, y, isCmp := f.Cmp()
-			if !isCmp || op != token.EQL {
-				return false
-			}
-			ex, ok := x.(*ssa.Extract)
-			if !ok {
-				return false
-			}
-			sel, ok := ex.Tuple.(*ssa.Select)
-			if !ok || ex.Index != 0 {
-				return false
-			}
-			k, ok := constInt(y)
-			if !ok || int(k) >= len(sel.States) {
-				return false
-			}
-			_, isShut := loadedField(sel.States[k].Chan, shut)
-			return isShut
-		})
+		ok := anyFact(fs.At(r.Block()), isShutdownArm)
+		if !ok {
+			// a helper of the same receiver that reports shutdown: `if !g.waitJitter(d) { return }` where every
+			// return of that constant inside the helper is the shutdownCh arm of a select
+			ok = anyFact(fs.At(r.Block()), func(f Fact) bool {
+				cl, isCall := f.V.(*ssa.Call)
+				if !isCall {
+					return false
+				}
+				sc := cl.Call.StaticCallee()
+				if sc == nil || !inModule(sc) || sc.Blocks == nil {
+					return false
+				}
+				hfs := computeFacts(sc)
+				n := 0
+				for _, hr := range returnsOf(sc) {
+					rv := returnValues(hr)
+					if len(rv) != 1 {
+						return false
+					}
+					b, isK := constBool(rv[0])
+					if !isK {
+						return false
+					}
+					if b != f.T {
+						continue
+					}
+					n++
+					if !anyFact(hfs.At(hr.Block()), isShutdownArm) {
+						return false
+					}
+				}
+				return n > 0
+			})
+		}
 		if !ok {
 			// the implicit return after an infinite loop is unreachable; only reachable returns count
 			if reachableBlocks(loop)[r.Block()] {
